@@ -790,3 +790,585 @@ def gen_c09(rng):
                              what='modifying an argument after the call disturbed the result'))
             hist.append(chk(out, ['values', 'cov', 'valid', 'nvalid', 'raw', 'layout']))
     return hist
+
+
+# ------------------------------------------------------------------ C03
+ALL_DT = INT_DT + FLT_DT + ['b']
+
+
+def gen_c03(rng):
+    mk = pick_map(rng, kinds=('plain', 'plain', 'plain', 'wide', 'rec', 'packed'), h=0)
+    if mk['kind'] == 'plain' and rng.random() < 0.5:
+        mk['dtype'] = rng.choice(['i1', 'u2', 'u4', 'u8', 'i2', 'f4'])
+        lo, hi = INT_RANGE.get(mk['dtype'], (None, None))
+        if mk['dtype'] in INT_DT:
+            mk['sentinel'] = rng.choice([None, 0, hi, lo])
+        else:
+            mk['sentinel'] = rng.choice([None, -1.0, 0.5])
+    cfg = (mk['nc'], mk['ns'])
+    hist = [mk]
+    hist += fill_steps(rng, mk, 0, rng.randint(1, 4))
+    hist.append(chk(0))
+    ncov = ncov_of(cfg)
+    md = None
+    if rng.random() < 0.5:
+        md = {'AKEY': rng.randint(0, 99), 'SHORT': 'abc'}
+        if rng.random() < 0.6:
+            md['AVERYLONGKEYNAME'] = rng.randint(0, 9)
+            md['FLOATKEY'] = 1.5
+    r = rng.random()
+    if r < 0.45:
+        pixels = None
+    else:
+        k = rng.randint(1, min(6, ncov))
+        pixels = rng.sample(range(ncov), k)       # unsorted, may include uncovered and trailing pixels
+        if rng.random() < 0.3:
+            pixels.append(ncov - 1) if (ncov - 1) not in pixels else None
+    st = dict(op='wr', h=0, out=5, compress=rng.random() < 0.5, pixels=pixels)
+    if md is not None:
+        st['metadata'] = md
+    hist.append(st)
+    hist.append(dict(op='ifexists', h=5))
+    hist.append(chk(5, ['values', 'cov', 'valid', 'nvalid', 'raw', 'layout', 'paths', 'covmap']))
+    hist.append(chk(0, ['values', 'cov', 'valid']))
+    # continuation: the map read back is queried, updated and extended like the original
+    for _ in range(rng.randint(1, 3)):
+        q = rng.random()
+        if q < 0.4:
+            hist.append(dict(op='grow', h=5, which=rng.randrange(5), off=rng.randrange(16), alt=rng.randrange(40)))
+        elif q < 0.8:
+            stu = rand_update(rng, mk, h=5, forms=('pix', 'setitem_arr', 'pix'))
+            hist.append(stu)
+        else:
+            hist.append(dict(op='wr', h=5, out=6, compress=rng.random() < 0.5, pixels=None))
+            hist.append(chk(6, ['values', 'cov', 'valid', 'nvalid', 'raw', 'layout']))
+        hist.append(chk(5, ['values', 'cov', 'valid', 'nvalid', 'raw', 'layout']))
+    return hist
+
+
+# ------------------------------------------------------------------ C10: twins by different routes
+def gen_c10(rng):
+    route = rng.choice(['shuffled', 'prealloc', 'cleared', 'wr', 'wr_partial', 'degrade', 'upgrade', 'astype', 'sop', 'single',
+                        'covpixmap', 'mop', 'copy', 'mklike', 'bmap'])
+    cfg = rng.choice([(1, 4), (2, 4), (2, 8), (1, 8), (4, 8)])
+    hist = []
+    if route in ('degrade', 'upgrade', 'astype', 'sop', 'mop'):
+        mk = mk_plain(rng, 0, cfg, rng.choice(['f8', 'f4', 'i4', 'i8']), sentinel=None)
+    elif route == 'single':
+        mk = pick_map(rng, kinds=('rec',), h=0)
+        mk['nc'], mk['ns'] = cfg
+        mk['cov_pixels'] = None
+    elif route == 'bmap':
+        cfg = rng.choice(CFGS_PACKED)
+        mk = dict(op='mk', h=0, kind=rng.choice(['packed', 'plain']), nc=cfg[0], ns=cfg[1], sentinel=None, cov_pixels=None)
+        if mk['kind'] == 'plain':
+            mk['dtype'] = 'b'
+    else:
+        mk = pick_map(rng, kinds=('plain', 'wide', 'rec', 'packed'), h=0)
+        if mk['kind'] != 'packed':
+            mk['nc'], mk['ns'] = cfg
+            mk['cov_pixels'] = None
+    cfg = (mk['nc'], mk['ns'])
+    if route == 'prealloc':
+        mk['cov_pixels'] = rng.sample(range(ncov_of(cfg)), min(ncov_of(cfg) - 1, rng.randint(1, 4)))
+    hist.append(mk)
+    hist += fill_steps(rng, mk, 0, rng.randint(2, 4), forms=('pix', 'pix', 'setitem_arr'))
+    if route == 'cleared':
+        st = rand_update(rng, mk, h=0, forms=('pix',))
+        st['operation'] = 'replace'
+        st['values'] = None
+        st.pop('single', None)
+        seen = []
+        for p in st['pixels']:
+            if p not in seen:
+                seen.append(p)
+        st['pixels'] = seen
+        hist.append(st)
+    m1 = 0
+    if route in ('wr', 'wr_partial'):
+        pixels = None
+        if route == 'wr_partial':
+            pixels = rng.sample(range(ncov_of(cfg)), rng.randint(1, ncov_of(cfg)))
+        hist.append(dict(op='wr', h=0, out=1, compress=rng.random() < 0.5, pixels=pixels))
+        hist.append(dict(op='ifexists', h=1))
+        m1 = 1
+    elif route == 'degrade':
+        hist.append(dict(op='degrade', h=0, out=1, nside_out=rng.choice([n for n in (1, 2, 4) if n < cfg[1]]),
+                         reduction=rng.choice(['max', 'min', 'sum']), hw=None))
+        m1 = 1
+    elif route == 'upgrade':
+        hist.append(dict(op='upgrade', h=0, out=1, nside_out=cfg[1] * 2))
+        m1 = 1
+    elif route == 'astype':
+        hist.append(dict(op='astype', h=0, out=1, dtype='f8', sentinel=None))
+        m1 = 1
+    elif route == 'sop':
+        hist.append(dict(op='sop', h=0, out=1, inplace=False, fn='+', scalar=1.0 if mk['dtype'] in FLT_DT else 1))
+        m1 = 1
+    elif route == 'single':
+        names = [n for n, _ in mk['fields']]
+        hist.append(dict(op='single', h=0, out=1, field=rng.choice(names), copy=True))
+        m1 = 1
+    elif route == 'covpixmap':
+        hist.append(dict(op='covpixmap', h=0, out=1, which=rng.randrange(4)))
+        m1 = 1
+    elif route == 'mop':
+        mk2 = dict(mk, h=7)
+        hist.append(mk2)
+        hist += fill_steps(rng, mk2, 7, 1, forms=('pix',), none_ok=False)
+        hist.append(dict(op='mop', out=1, name=rng.choice(['sum_union', 'max_union', 'min_intersection', 'sum_intersection']), hs=[0, 7]))
+        m1 = 1
+    elif route == 'copy':
+        hist.append(dict(op='copy', h=0, out=1))
+        m1 = 1
+    elif route == 'mklike':
+        hist.append(dict(op='mklike', h=0, out=1))
+        m1 = 1
+    elif route == 'bmap':
+        mk2 = dict(mk, h=7)
+        hist.append(mk2)
+        hist += fill_steps(rng, mk2, 7, 1, forms=('pix',), none_ok=False)
+        hist.append(dict(op='bmap', h=0, out=1, fn=rng.choice(['or', 'xor', 'and']), h2=7, inplace=False))
+        m1 = 1
+    m2 = 20
+    hist.append(dict(op='canon', h=m1, out=m2))
+    hist.append(chk(m1, ['values', 'cov', 'valid', 'nvalid']))
+    hist.append(chk(m2, ['values', 'cov', 'valid', 'nvalid', 'raw', 'layout']))
+    hist.append(dict(op='sameas', h=m1, ref=m2, what='a map and its canonical rebuild differ'))
+    # continuation on both twins
+    nxt = 30
+    for _ in range(rng.randint(1, 3)):
+        q = rng.random()
+        if q < 0.35:
+            a = dict(op='grow', h=m1, which=rng.randrange(5), off=rng.randrange(16), alt=rng.randrange(40))
+            hist += [a, dict(a, h=m2)]
+        elif q < 0.55:
+            a = dict(op='copy', h=m1, out=nxt)
+            hist += [a, dict(a, h=m2, out=nxt + 1)]
+            hist.append(dict(op='sameas', h=nxt, ref=nxt + 1, what='copies of content-equal maps differ'))
+            nxt += 2
+        elif q < 0.75:
+            a = dict(op='wr', h=m1, out=nxt, compress=True, pixels=None)
+            hist += [a, dict(a, h=m2, out=nxt + 1)]
+            hist.append(dict(op='sameas', h=nxt, ref=nxt + 1, what='files written from content-equal maps read back differently'))
+            nxt += 2
+        else:
+            a = dict(op='queries', h=m1, ref=m2)
+            hist.append(a)
+        hist.append(chk(m1, ['values', 'cov', 'valid', 'nvalid', 'raw', 'layout']))
+        hist.append(chk(m2, ['values', 'cov', 'valid', 'nvalid', 'raw', 'layout']))
+        hist.append(dict(op='sameas', h=m1, ref=m2, what='content-equal maps diverged under the same continuation'))
+    return hist
+
+
+# ------------------------------------------------------------------ C16
+def gen_c16(rng):
+    cfg = rng.choice([(1, 2), (1, 4), (2, 4), (2, 8), (1, 8), (4, 8), (1, 1)])
+    dt = rng.choice(['f4', 'f8', 'f8', 'i4', 'i8', 'i2'])
+    npix = npix_of(cfg)
+    n = rng.randint(1, min(30, npix))
+    pix = rng.sample(range(npix), n)
+    if dt in FLT_DT:
+        vals = [rng.randint(-32, 32) / 4.0 for _ in pix]
+        sent = None
+    else:
+        lo, hi = INT_RANGE[dt]
+        sent = rng.choice([lo, -1, 0])
+        vals = [v if v != sent else v + 1 for v in (rng.randint(-20, 20) for _ in pix)]
+    hist = [dict(op='fromhp', out=0, nc=cfg[0], ns=cfg[1], dtype=dt, nest=rng.random() < 0.5, sentinel=sent,
+                 pixels=pix, values=vals)]
+    hist.append(chk(0, ['values', 'cov', 'valid', 'nvalid', 'raw', 'layout', 'paths']))
+    hist.append(dict(op='hpround', h=0))
+    st = dict(op='tohp', h=0)
+    if cfg[1] > 1 and rng.random() < 0.5:
+        st['nside'] = rng.choice([x for x in (1, 2, 4) if x < cfg[1]])
+        st['reduction'] = rng.choice(['mean', 'max', 'sum'])
+    hist.append(st)
+    # some updates through ring / position addressing, then export again
+    mk = mk_plain(rng, 0, cfg, dt, sentinel=sent)
+    for _ in range(rng.randint(0, 2)):
+        hist.append(rand_update(rng, mk, h=0, forms=('ring', 'pos', 'pix')))
+        hist.append(chk(0, ['values', 'cov', 'valid', 'paths']))
+    hist.append(dict(op='tohp', h=0))
+    if rng.random() < 0.6:
+        hist.append(dict(op='hpfile', h=0, out=3))
+        hist.append(chk(3, ['values', 'valid', 'nvalid', 'layout']))
+    if dt in FLT_DT or True:
+        k = rng.randint(1, 6)
+        lon = [rng.choice([0.0, 359.99, 45.0, 90.0, rng.uniform(0, 360)]) for _ in range(k)]
+        lat = [rng.choice([89.9, -89.9, 0.0, rng.uniform(-89, 89)]) for _ in range(k)]
+        # positions next to valid pixels so that the weighted mean is exercised
+        import hpgeom as hpg
+        plon, plat = hpg.pixel_to_angle(cfg[1], [p for p in pix[:3]])
+        lon += [float(x) + rng.uniform(-0.5, 0.5) for x in plon]
+        lat += [max(-89.9, min(89.9, float(x) + rng.uniform(-0.5, 0.5))) for x in plat]
+        lon = [x % 360.0 for x in lon]
+        hist.append(dict(op='interp', h=0, lon=lon, lat=lat))
+    return hist
+
+
+def gen_c16_bool(rng):
+    cfg = rng.choice([(1, 4), (2, 8)])
+    mk = mk_plain(rng, 0, cfg, 'b')
+    hist = [mk] + fill_steps(rng, mk, 0, 2, forms=('pix',))
+    hist.append(dict(op='tohp', h=0))
+    hist.append(dict(op='hpfile', h=0, out=3))
+    hist.append(chk(3, ['values', 'valid']))
+    return hist
+
+
+# ------------------------------------------------------------------ C17
+def gen_c17(rng):
+    cfg = rng.choice([(1, 2), (1, 4), (2, 8), (1, 16), (2, 16), (4, 16), (1, 8)])
+    mk = pick_map(rng, kinds=('plain', 'plain', 'wide', 'packed', 'rec'), h=0)
+    if mk['kind'] != 'packed':
+        mk['nc'], mk['ns'] = cfg
+    mk['cov_pixels'] = None
+    cfg = (mk['nc'], mk['ns'])
+    npix = npix_of(cfg)
+    nfine = nfine_of(cfg)
+    # valid set: scatter, full cells at some level, full minus k
+    pix = set()
+    for _ in range(rng.randint(1, 4)):
+        mode = rng.random()
+        if mode < 0.3:
+            for _ in range(rng.randint(1, 6)):
+                pix.add(rng.randrange(npix))
+        else:
+            lvl = rng.choice([1, 4, 16, 64, 256, nfine, 4 * nfine])
+            lvl = min(lvl, npix // 12 * 4 if npix >= 48 else 4)
+            lvl = max(1, lvl)
+            base = rng.randrange(npix // lvl) * lvl
+            cell = list(range(base, base + lvl))
+            k = rng.choice([0, 0, 1, 1, 2])
+            for _ in range(min(k, len(cell) - 1)):
+                cell.remove(rng.choice(cell))
+            pix.update(cell)
+    pix = sorted(pix)
+    rng.shuffle(pix)
+    pix = pix[:600]
+    vals = [rand_value(rng, mk, allow_sentinel=False) for _ in pix]
+    if mk['kind'] == 'wide':
+        vals = [v or 1 for v in vals]
+    if mk['kind'] == 'packed' or (mk['kind'] == 'plain' and mk.get('dtype') == 'b'):
+        vals = [True for _ in pix]
+    hist = [mk]
+    k = rng.randint(1, len(pix))
+    hist.append(dict(op='upd', h=0, form='pix', operation='replace', expect='ok', pixels=pix[:k], values=vals[:k], single=False))
+    if k < len(pix):
+        hist.append(dict(op='upd', h=0, form='pix', operation='replace', expect='ok', pixels=pix[k:], values=vals[k:], single=False))
+    hist.append(dict(op='moc', h=0))
+    return hist
+
+
+def gen_c17_deep(rng):
+    """a cell nine or more levels above the sparse resolution with exactly one (or two) missing child"""
+    depth = rng.choice([9, 9, 10])
+    ns = 2 ** depth
+    nc = 1
+    mk = mk_plain(rng, 0, (nc, ns), rng.choice(['f4', 'i2', 'b']), sentinel=None)
+    mk['nomodel'] = True
+    base_cell = rng.randrange(12)
+    lo = base_cell * 4 ** depth
+    hi = lo + 4 ** depth
+    holes = sorted(rng.sample(range(lo, hi), rng.choice([1, 1, 2])))
+    rows = []
+    a = lo
+    for hpx in holes:
+        if a < hpx:
+            rows.append([a, hpx])
+        a = hpx + 1
+    if a < hi:
+        rows.append([a, hi])
+    val = True if mk['dtype'] == 'b' else 1
+    return [mk, dict(op='rng', h=0, operation='replace', thr=0, ranges=rows, value=val, nomodel=True), dict(op='moc', h=0)]
+
+
+# ------------------------------------------------------------------ C18
+def gen_c18(rng):
+    kind = rng.choice(['plain', 'plain', 'wide', 'rec'])
+    ns = rng.choice([4, 8])
+    nfiles = rng.randint(1, 4)
+    base = pick_map(rng, kinds=(kind,), h=0)
+    hist = []
+    hs = []
+    npix = 12 * ns * ns
+    nc_out = rng.choice([None, 1, 2, 4])
+    if nc_out is not None and nc_out > ns:
+        nc_out = None
+    # an output coverage pixel region where the inputs interleave
+    region = rng.randrange(12)
+    region_lo, region_hi = region * (npix // 12), (region + 1) * (npix // 12)
+    used = set()
+    overlap_wanted = rng.random() < 0.15
+    for k in range(nfiles):
+        mk = dict(base)
+        mk['h'] = k
+        mk['nc'] = rng.choice([c for c in (1, 2, 4) if c <= ns])
+        mk['ns'] = ns
+        mk['cov_pixels'] = None
+        hist.append(mk)
+        pix = []
+        for _ in range(rng.randint(1, 12)):
+            p = rng.randrange(region_lo, region_hi) if rng.random() < 0.7 else rng.randrange(npix)
+            if p in pix:
+                continue
+            if p in used and not overlap_wanted:
+                continue
+            pix.append(p)
+        if not pix:
+            pix = [p for p in range(region_lo, region_hi) if p not in used][:1]
+        used.update(pix)
+        vals = [rand_value(rng, mk, allow_sentinel=False) for _ in pix]
+        if kind == 'wide':
+            vals = [v or 1 for v in vals]
+        hist.append(dict(op='upd', h=k, form='pix', operation='replace', expect='ok', pixels=pix, values=vals, single=False))
+        hs.append(k)
+    st = dict(op='cat', hs=hs, out=20, nside_coverage_out=nc_out)
+    if rng.random() < 0.5 or overlap_wanted:
+        st['check_overlap'] = True
+    hist.append(st)
+    hist.append(dict(op='ifexists', h=20))
+    hist.append(chk(20, ['values', 'valid', 'nvalid', 'layout']))
+    return hist
+
+
+# ------------------------------------------------------------------ C19
+def gen_c19(rng):
+    kind = rng.choice(['float', 'float', 'int', 'int0', 'rec', 'wide'])
+    cfg = rng.choice([(1, 4), (2, 4), (2, 8), (1, 8), (4, 8)])
+    if kind == 'float':
+        mk = mk_plain(rng, 0, cfg, rng.choice(FLT_DT), sentinel=rng.choice([None, None, -1.0]))
+        reds = ['mean', 'median', 'std', 'max', 'min', 'sum', 'prod', 'wmean']
+    elif kind == 'int':
+        mk = mk_plain(rng, 0, cfg, rng.choice(['i2', 'i4', 'i8']), sentinel=rng.choice([None, 5]))
+        reds = ['mean', 'max', 'min', 'sum', 'wmean', 'median']
+    elif kind == 'int0':
+        mk = mk_plain(rng, 0, cfg, rng.choice(['i2', 'i4', 'u2', 'u1']), sentinel=0)
+        reds = ['or', 'and', 'max']
+    elif kind == 'rec':
+        mk = pick_map(rng, kinds=('rec',), h=0)
+        mk['nc'], mk['ns'] = cfg
+        mk['cov_pixels'] = None
+        reds = ['mean', 'max', 'min', 'sum', 'wmean']
+    else:
+        mk = dict(op='mk', h=0, kind='wide', nc=cfg[0], ns=cfg[1], maxbits=rng.choice([3, 8, 9]), sentinel=None, cov_pixels=None)
+        reds = ['or', 'and']
+    hist = [mk]
+    ncov = ncov_of(cfg)
+    nfine = nfine_of(cfg)
+    covs = rng.sample(range(ncov), min(ncov, rng.randint(1, 4)))
+    pix = []
+    for c in covs:
+        for _ in range(rng.randint(1, 8)):
+            p = c * nfine + rng.randrange(nfine)
+            if p not in pix:
+                pix.append(p)
+    vals = []
+    for p in pix:
+        if kind == 'float':
+            vals.append(rng.randint(-16, 16) / 4.0)
+        elif kind == 'int':
+            vals.append(rng.randint(-6, 6))
+        elif kind == 'int0':
+            vals.append(rng.randint(1, 15))
+        else:
+            vals.append(rand_value(rng, mk, allow_sentinel=False))
+    if kind == 'wide':
+        vals = [v or 1 for v in vals]
+    k = rng.randint(1, len(pix))
+    hist.append(dict(op='upd', h=0, form='pix', operation='replace', expect='ok', pixels=pix[:k], values=vals[:k], single=False))
+    if k < len(pix):
+        hist.append(dict(op='upd', h=0, form='pix', operation='replace', expect='ok', pixels=pix[k:], values=vals[k:], single=False))
+    red = rng.choice(reds)
+    outs = [n for n in (1, 2, 4) if cfg[0] <= n < cfg[1]]
+    if not outs:
+        return gen_c19(rng)
+    nside_out = rng.choice(outs)
+    hw = None
+    if red == 'wmean':
+        wmk = mk_plain(rng, 1, cfg, rng.choice(FLT_DT), sentinel=None)
+        hist.append(wmk)
+
+        def isvalid(v):
+            sent = mk.get('sentinel')
+            if mk['kind'] == 'rec':
+                names = [n for n, _ in mk['fields']]
+                v = v[names.index(mk['primary'])]
+                dtp = dict(mk['fields'])[mk['primary']]
+            else:
+                dtp = mk.get('dtype')
+            if sent is None and dtp and dtp.startswith('u'):
+                sent = 0
+            return sent is None or v != sent
+        order = [j for j in range(len(pix)) if isvalid(vals[j])]
+        if not order:
+            return gen_c19(rng)
+        if rng.random() < 0.5:
+            rng.shuffle(order)
+        hist.append(dict(op='upd', h=1, form='pix', operation='replace', expect='ok', pixels=[pix[j] for j in order],
+                         values=[rng.choice([0.5, 1.0, 2.0, 4.0]) for _ in order], single=False))
+        hw = 1
+    pixels = None
+    if rng.random() < 0.6:
+        pixels = rng.sample(range(ncov), rng.randint(1, min(5, ncov)))
+        if rng.random() < 0.4 and (ncov - 1) not in pixels:
+            pixels.append(ncov - 1)           # a pixel beyond the last covered one
+    hist.append(dict(op='rdeg', h=0, out=10, out2=11, nside_out=nside_out, reduction=red, pixels=pixels, hw=hw,
+                     compress=rng.random() < 0.5))
+    hist.append(dict(op='ifexists', h=10))
+    c10 = chk(10, ['values', 'cov', 'valid', 'nvalid', 'raw', 'layout'])
+    if red == 'and':
+        c10['l1only'] = True        # (the 'and' reduction over partly valid groups is finding F21 of C07, not of C19)
+    hist.append(c10)
+    hist.append(dict(op='sameas', h=10, ref=11, what='degrade-on-read differs from read followed by degrade'))
+    hist.append(dict(op='covsame', h=10, ref=11))
+    return hist
+
+
+# ------------------------------------------------------------------ C20
+def gen_c20(rng):
+    import hpgeom as hpg
+    cfg = rng.choice([(1, 4), (2, 8), (4, 16), (2, 16), (8, 32)])
+    mk = mk_plain(rng, 0, cfg, rng.choice(['f8', 'i4', 'b']), sentinel=None)
+    npix = npix_of(cfg)
+    shape = rng.choice(['single', 'scatter', 'cap_n', 'cap_s', 'lon0', 'patches', 'small'])
+    ns = cfg[1]
+    if shape == 'single':
+        pix = [rng.randrange(npix)]
+    elif shape == 'scatter':
+        pix = rng.sample(range(npix), min(npix, rng.randint(2, 12)))
+    elif shape in ('cap_n', 'cap_s'):
+        lat = 88.0 if shape == 'cap_n' else -88.0
+        pix = [int(p) for p in hpg.query_circle(ns, 10.0, lat, 6.0)]
+    elif shape == 'lon0':
+        pix = [int(p) for p in hpg.query_circle(ns, rng.choice([0.0, 359.5, 1.0]), rng.uniform(-50, 50), 8.0)]
+    elif shape == 'patches':
+        pix = []
+        for _ in range(3):
+            pix += [int(p) for p in hpg.query_circle(ns, rng.uniform(20, 340), rng.uniform(-60, 60), 5.0)]
+    else:
+        base = rng.randrange(npix // 4) * 4
+        pix = [base, base + 1, base + 2, base + 3][:rng.randint(2, 4)]
+    pix = sorted(set(pix))[:300]
+    if not pix:
+        pix = [0]
+    val = True if mk['dtype'] == 'b' else 1
+    hist = [mk, dict(op='upd', h=0, form='pix', operation='replace', expect='ok', pixels=pix, values=val, single=True,
+                     pyscalar=True)]
+    kind = rng.choice(['fast', 'fast', 'slow'])
+    n = rng.choice([0, 1, 17, 1000])
+    st = dict(op='rand', h=0, kind=kind, n=n, seed=rng.randrange(2 ** 31), footprint=shape)
+    if kind == 'fast':
+        st['nside_randoms'] = ns * rng.choice([2, 4, 8])
+        if len(pix) <= 4 and rng.random() < 0.7:
+            st['nside_randoms'] = ns * 2
+            st['n'] = 40 * len(pix) * 4 + 200
+            st['occupancy'] = True
+    else:
+        if len(pix) <= 12 and rng.random() < 0.6:
+            st['n'] = 60 * len(pix) + 100
+            st['occupancy'] = True
+    hist.append(st)
+    return hist
+
+
+# ------------------------------------------------------------------ geometry histories (C08, C13)
+def rand_shape(rng, ns):
+    t = rng.choice(['circle', 'circle', 'polygon', 'ellipse', 'box'])
+    ra = rng.choice([rng.uniform(5, 355), 0.5, 359.5, 180.0])
+    dec = rng.choice([rng.uniform(-70, 70), 85.0, -85.0, 0.0])
+    size = rng.uniform(2.0, 12.0)
+    if t == 'circle':
+        s = dict(type='circle', ra=ra, dec=dec, radius=size)
+    elif t == 'ellipse':
+        s = dict(type='ellipse', ra=ra, dec=max(-60, min(60, dec)), a=size, b=size / 2.0, alpha=rng.uniform(0, 180))
+    elif t == 'polygon':
+        d = max(-60, min(60, dec))
+        r0 = ra if 20 < ra < 340 else 100.0
+        s = dict(type='polygon', ras=[r0 - size, r0 + size, r0 + size, r0 - size], decs=[d - size / 2, d - size / 2, d + size / 2, d + size / 2])
+    else:
+        d = max(-60, min(60, dec))
+        r0 = ra if 20 < ra < 340 else 100.0
+        s = dict(type='box', ra1=r0 - size, ra2=r0 + size, dec1=d - size / 2, dec2=d + size / 2)
+    if rng.random() < 0.3 and ns >= 8:
+        s['nside_render'] = rng.choice([x for x in (ns // 4, ns // 2, ns) if x >= 1])
+    return s
+
+
+def gen_geom(rng, wide_only=False):
+    cfg = rng.choice([(1, 8), (2, 8), (2, 16), (4, 16), (4, 32)])
+    kind = 'wide' if wide_only else rng.choice(['wide', 'int', 'bool', 'packed'])
+    hist = []
+    if kind == 'wide':
+        maxbits = rng.choice([8, 9, 16, 17, 24, 33])
+        mk = dict(op='mk', h=0, kind='wide', nc=cfg[0], ns=cfg[1], maxbits=maxbits, sentinel=None, cov_pixels=None)
+        width = (maxbits - 1) // 8 + 1
+
+        def val():
+            cands = [b for b in (0, 7, 8, 15, 16, 8 * width - 1, 1, 3) if b < 8 * width]
+            return sorted(set(rng.choice(cands) for _ in range(rng.randint(1, 3))))
+    elif kind == 'int':
+        mk = mk_plain(rng, 0, cfg, rng.choice(['i2', 'i4', 'u2', 'i8', 'u1']), sentinel=0)
+
+        def val():
+            return rng.choice([1, 2, 3, 4, 8])
+    elif kind == 'bool':
+        mk = mk_plain(rng, 0, cfg, 'b')
+
+        def val():
+            return True
+    else:
+        cfgp = rng.choice([(1, 8), (2, 8), (2, 16), (4, 16)])
+        mk = dict(op='mk', h=0, kind='packed', nc=cfgp[0], ns=cfgp[1], sentinel=None, cov_pixels=None)
+        cfg = cfgp
+
+        def val():
+            return True
+    hist.append(mk)
+    if rng.random() < 0.5:
+        hist += fill_steps(rng, mk, 0, 1, forms=('pix',), none_ok=False)
+    hist.append(chk(0))
+    nxt = 5
+    for _ in range(rng.randint(1, 3)):
+        q = rng.random()
+        if q < 0.2:
+            v = val()
+            st = dict(op='geom', mode='get_map', out=nxt, shape=rand_shape(rng, cfg[1]), value=v, nc=cfg[0], ns=cfg[1])
+            if kind == 'wide':
+                st['maxbits'] = rng.choice([None, None, max(v) + 1, max(v) + 9])
+            else:
+                st['dtype'] = mk.get('dtype', 'b') if kind != 'packed' else 'b'
+            if kind == 'packed':
+                continue
+            hist.append(st)
+            hist.append(chk(nxt))
+            if kind == 'wide':
+                hist.append(dict(op='chkbits', h=nxt, bitlists=[[b] for b in v]))
+            nxt += 1
+        elif q < 0.3:
+            v = val()
+            hist.append(dict(op='geom', mode='get_map_like', out=nxt, like=0, shape=rand_shape(rng, cfg[1]), value=v))
+            hist.append(chk(nxt))
+            nxt += 1
+        elif q < 0.42 and kind in ('wide', 'int'):
+            hist.append(dict(op='geom', mode='realize', h=0, shapes=[rand_shape(rng, cfg[1]) for _ in range(rng.randint(1, 2))],
+                             value=val()))
+            hist.append(chk(0))
+        else:
+            modes = ['or', 'ior', 'and', 'iand']
+            if kind == 'int':
+                modes += ['add', 'iadd']
+            mode = rng.choice(modes)
+            st = dict(op='geom', mode=mode, h=0, shape=rand_shape(rng, cfg[1]), value=val())
+            if mode in ('or', 'and', 'add'):
+                st['out'] = nxt
+            hist.append(chk(0, ['nvalid']))
+            hist.append(st)
+            if 'out' in st:
+                hist.append(chk(nxt))
+                nxt += 1
+            hist.append(chk(0))
+            if kind == 'wide':
+                hist.append(dict(op='chkbits', h=0, bitlists=[[b] for b in st['value']]))
+    return hist
